@@ -164,3 +164,27 @@ def extra_checks(res, tier, seed, known, log):
                            label="hamming_sphere / edit_environment enumerate exactly the neighbourhood with exact error counts")
     runner.runtime_standin(res, "C08", "c08", "index", seed, 3000 if tier == "quick" else 60000, 25 if tier == "quick" else 900,
                            label="indexed vs one-by-one search and genuineness of indexed matches")
+
+
+# ------------------------------------------------------------------------------ reads with N: the re-done alignment
+@contract("adapters.py", "AdapterIndex._lookup_with_n", props=["C08"])
+def lookup_with_n(c):
+    """An affix containing N is looked up with N replaced by A; what is reported for it are the errors and the score of the
+    adapter's own alignment to the affix as it is, and only if that alignment spans the whole affix (otherwise the numbers
+    belong to a shorter occurrence, and the affix length reported by the caller would not be the aligned length)."""
+    c.types(self=ObjT("AdapterIndex", _index=ObjT("IndexDict")), affix=Str)
+    c.runtime = {"module": "c08", "name": "index", "replay_count": 20000}
+    c.returns(OptT(TupT(IndexedAdapterT, Int, Int)))
+    c.spec(idx_spec)
+    KEY = "affix.replace('N', 'A')"
+    AD = "val(result)[0]"
+    c.ensures(
+        nothing_without_an_index_entry=f"implies(not idx_has(self._index, {KEY}), is_none(result))",
+        adapter_is_the_one_of_the_index_entry=f"implies(not is_none(result), {AD}.__id__ == idx_adapter(self._index, {KEY}))",
+        numbers_are_those_of_the_adapters_own_alignment_to_the_affix=
+        f"implies(not is_none(result), not mt_none({AD}, affix) and val(result)[1] == errors_of(mt({AD}, affix)) and val(result)[2] == score_of(mt({AD}, affix)))",
+        that_alignment_spans_the_whole_affix=
+        f"implies(not is_none(result), mt({AD}, affix).rstop - mt({AD}, affix).rstart == len(affix))",
+    )
+    c.mutant("match.rstop - match.rstart != len(affix)", "match.rstop - match.rstart > len(affix)")
+    c.mutant("return adapter, match.errors, match.score", "return adapter, result[1], match.score")
